@@ -170,6 +170,15 @@ var c38FreeStrings = []string{"refinery-logs", "Refinery Logs", "my logs", "prod
 	"12345", "007", "true", "null", "1e5", "0x1F", "- dash", "*star", "&anchor", "{brace}", "[b]", "key: value", "#1Pass!", "p@ss:w0rd", "s3cr3t",
 	"100%", "a,b", "!bang", "|pipe", ">gt", "eth0", "192.168.1.1", "refinery-0.refinery", "[secret]", "[", "`tick", "a_b^c", "{a: b}", "@home", "%temp%"}
 
+// strings that stress the quoting of the converter's YAML writer: both quote
+// kinds, a quote next to colon-space / '#' / leading or trailing blanks,
+// backslashes with quotes, tab and newline. All are ordinary values of a free
+// string setting (token, password, dataset or user name) in TOML, YAML and JSON.
+var c38HostileStrings = []string{`it's a "secret" token`, `"'`, `'"x`, `a'b"c`, `say "hi": now`, `it's: ok`, `"q": 'v'`, ` "lead`, `trail' `, ` it's "x" `,
+	`"#1" pass`, `x #"y'`, `it's #1`, `dom\user "x"`, `c:\dir 'y'`, `\"`, `a\'b"`, `back\slash`, "tab\t'x'\"y\"", "line1\nline\"2\"", "it's\ntwo lines", "say \"hi\"\tthere", `'single'`, `"double"`, `''`, `""`}
+
+const c38QuoteAlphabet = "ab1 '\":#\\"
+
 const c38Hex = "0123456789abcdef"
 const c38Alnum = "0123456789abcdefghijklmnopqrstuvwxyzABCDEFGHIJKLMNOPQRSTUVWXYZ"
 const c38FreeAlphabet = "abcdefghijklmnopqrstuvwxyzABCDEFGHIJKLMNOPQRSTUVWXYZ0123456789 _-.:/#'\"@!%&*+,=?[]{}|<>~^`\\()"
@@ -242,14 +251,22 @@ func c38GenFree(t *rapid.T, label string) string {
 		}
 	})
 	switch k := c38Roll(t, 20, label+"-free"); {
-	case k < 7:
+	case k < 5:
 		return rapid.SampledFrom(c38FreeBuckets["plain"]).Draw(t, label+"-pick")
-	case k < 11:
+	case k < 8:
 		return rapid.SampledFrom(c38FreeBuckets["punct"]).Draw(t, label+"-pick")
-	case k < 14:
+	case k < 10:
 		return rapid.SampledFrom(c38FreeBuckets["scalarlike"]).Draw(t, label+"-pick")
-	case k < 17:
+	case k < 13:
 		return rapid.SampledFrom(c38FreeBuckets["needsquote"]).Draw(t, label+"-pick")
+	case k < 16:
+		return c38HostileStrings[c38Roll(t, len(c38HostileStrings), label+"-hostile")]
+	case k < 18:
+		// short random mixes of quotes, blanks, colon, hash and backslash (blanks kept)
+		if q := c38StrOf(t, c38QuoteAlphabet, 2, 8, label+"-q"); strings.TrimSpace(q) != "" {
+			return q
+		}
+		return `'"`
 	}
 	s := strings.TrimSpace(c38StrOf(t, c38FreeAlphabet, 1, 12, label))
 	if s == "" || s == "*" {
